@@ -279,6 +279,34 @@ def equivalents():
             continue
         for s in g[1:]:
             same(stock.dilute(salt, s, water), ref3, f"dilute({s!r}) vs {g[0]!r}", {'strings': [g[0], s], 'kind': 'equivalent concentrations'})
+    # several solutes, each with its own concentration: every one is present at the concentration written for it (measured from the
+    # contents: grams or litres of that solute per litre of the result), whatever the spellings of the others and the order given
+    from pyplate.pyplate import config
+    kcl = Substance.solid('KCl', 74.55)
+    glucose = Substance.solid('glucose', 180.16)
+    dmso = Substance.liquid('DMSO', 78.13, 1.1)
+    etoh = Substance.liquid('ethanol', 46.07, 0.789)
+    pm, pv = float(dsl.PFX[config.moles_storage_unit[:-3]][1]), float(dsl.PFX[config.volume_storage_unit[:-1]][1])
+    plans = [([salt, kcl], ['8 g/L', '0.2 g/L'], '1 L', [('g', 8.0), ('g', 0.2)]), ([kcl, salt], ['0.2 g/L', '8 g/L'], '1 L', [('g', 0.2), ('g', 8.0)]),
+             ([salt, kcl], ['0.9 %w/v', '0.02 %w/v'], '100 mL', [('g', 9.0), ('g', 0.2)]),
+             ([salt, kcl, glucose], ['8 mg/mL', '0.2 mg/mL', '1 mg/mL'], '50 mL', [('g', 8.0), ('g', 0.2), ('g', 1.0)]),
+             ([salt, kcl], ['100 mM', '0.2 g/L'], '250 mL', [('g', 5.844), ('g', 0.2)]),
+             ([dmso, etoh], ['10 %v/v', '5 %v/v'], '100 mL', [('L', 0.1), ('L', 0.05)]),
+             ([dmso, salt], ['50 mL/L', '2 g/L'], '200 mL', [('L', 0.05), ('g', 2.0)])]
+    for solutes, concs, total, want in plans:
+        doc = {'strings': concs, 'kind': 'several solutes', 'solutes': [s.name for s in solutes], 'total': total}
+        try:
+            c = Container.create_solution(solutes, water, concentration=concs, total_quantity=total)
+        except Exception as e:  # noqa
+            fails.append((f"create_solution({[s.name for s in solutes]}, concentration={concs}, total_quantity={total!r}) raised {type(e).__name__}: {e}", doc))
+            continue
+        litres = c.volume * pv
+        for s, text, (base, per_l) in zip(solutes, concs, want):
+            mol = c.contents.get(s, 0) * pm
+            got = (mol * s.mol_weight if base == 'g' else mol * s.mol_weight / (s.density * 1000)) / litres
+            if abs(got - per_l) > 1e-5 * per_l:
+                fails.append((f"create_solution({[x.name for x in solutes]}, concentration={concs}, total_quantity={total!r}): {s.name} was asked at {text} "
+                              f"({per_l} {base}/L) but the result holds {got!r} {base}/L", doc))
     return fails
 
 
